@@ -258,6 +258,59 @@ def envVariant : Nat → List Opt × List Opt
   | 1 => ([.stdout], []) | 2 => ([], [.stdout]) | 3 => ([], [.keep]) | 4 => ([.keep], [.decompress])
   | 5 => ([.stdout], [.compress]) | _ => ([], [])
 
+/-! ## main.c: which names are files and which one is standard input -/
+
+def dash : Name := [0x2d]
+
+/-- Where a name comes from: an operand on the command line, or an entry of the `--files` / `--files0` list. -/
+inductive NameSource where
+  | cmdline | filesList
+  deriving DecidableEq, Repr, Inhabited
+
+/-- What `main()` does with one name. -/
+inductive Target where
+  | stdin                 -- `stdin_filename` is handed to coder_run(): read standard input, write standard output
+  | file (n : Name)       -- coder_run(n)
+  | refusedStdin          -- "Cannot read data from standard input when reading filenames from standard input" (error)
+  deriving DecidableEq, Repr, Inhabited
+
+/-- The first loop of `main()` turns the operand "-" into standard input; the second loop (names from the list) does not:
+    "here we don't consider "-" to indicate stdin like we do with the command line arguments". -/
+def nameTarget (src : NameSource) (listOnStdin : Bool) (name : Name) : Target :=
+  match src with
+  | .filesList => .file name
+  | .cmdline => if name == dash then (if listOnStdin then .refusedStdin else .stdin) else .file name
+
+/-- `read_name()` called until it returns NULL: the complete non-empty names, and whether reading ended with an error
+    (end of input inside a name, or a NUL byte in a newline-separated list). `acc` is the name being collected. -/
+def readNames (delim : UInt8) : List UInt8 → Name → List Name × Bool
+  | [], acc => ([], !acc.isEmpty)
+  | b :: rest, acc =>
+    if b == delim then
+      if acc.isEmpty then readNames delim rest []
+      else ((acc :: (readNames delim rest []).1), (readNames delim rest []).2)
+    else if b == 0 then ([], true)
+    else readNames delim rest (acc ++ [b])
+
+/-- list mode of Gen `mainRows`: 0 none, 1 `--files=FILE`, 2 `--files0=FILE`, 3 `--files` (stdin), 4 `--files0` (stdin) -/
+def listDelim (mode : Nat) : UInt8 := if mode == 1 || mode == 3 then 0x0a else 0
+
+/-- Everything `main()` hands to `coder_run()` (or refuses), in order: operands first, then the list. With no operand and
+    no list, args.c supplies the single operand "-". The `Bool` is the list-read error. -/
+def mainPlan (operands : List Name) (listMode : Nat) (listBytes : List UInt8) : List Target × Bool :=
+  let onStdin := listMode == 3 || listMode == 4
+  let ops := if operands.isEmpty && listMode == 0 then [dash] else operands
+  let fromList := if listMode == 0 then ([], false) else readNames (listDelim listMode) listBytes []
+  (ops.map (nameTarget .cmdline onStdin) ++ fromList.1.map (nameTarget .filesList onStdin), fromList.2)
+
+/-- coding of a plan as in Gen `mainRows` (a name never contains byte 1 followed by 'S'/'R'/'E' in these rows) -/
+def Target.code : Target → Name
+  | .stdin => [1, 83] | .refusedStdin => [1, 82] | .file n => n
+
+def mainPlanCode (operands : List Name) (listMode : Nat) (listBytes : List UInt8) : List Name :=
+  let p := mainPlan operands listMode listBytes
+  p.1.map Target.code ++ (if p.2 then [[1, 69]] else [])
+
 /-! ## io_open_dest_real / io_close: what happens at the target name -/
 
 /-- What already exists at the target name. -/
